@@ -182,4 +182,50 @@ theorem items_full (d : Date) (Y : Int) (o : Nat) (hd : DateOk d Y o) (t : Time)
       renderItemOn_full]
     cases renderItem it Y o t off <;> cases renderItemsOn ⟨true, true, true⟩ rest Y o t off <;> rfl
 
+/-! ### a zone with a name of its own (`Utc`) -/
+
+/-- only `%Z` looks at the name -/
+theorem name_indep (d : Option Date) (t : Option Time) (n1 n2 : List Nat) (off : Int) (it : Item)
+    (h : it ≠ .fixed .timezoneName) :
+    format_item d t (some (n1, off)) it = format_item d t (some (n2, off)) it := by
+  cases it with
+  | literal s => rfl
+  | space s => rfl
+  | error => rfl
+  | numeric n pad => rfl
+  | fixed f => cases f <;> first | exact absurd rfl h | (cases d <;> cases t <;> rfl)
+
+theorem item_named (d : Date) (Y : Int) (o : Nat) (hd : DateOk d Y o) (t : Time) (ht : TValid t) (off : Int)
+    (hoff : -86400 < off ∧ off < 86400) (name : List Nat) (it : Item) (hf : it ≠ .fixed .rfc2822) :
+    format_item (some d) (some t) (some (name, off)) it = toW (renderItemNamed name it Y o t off) := by
+  by_cases hz : it = .fixed .timezoneName
+  · subst hz; rfl
+  · rw [name_indep _ _ name (fixedOffsetName off) off it hz, item_full d Y o hd t ht off hoff it hf]
+    cases it with
+    | fixed f => cases f <;> first | rfl | exact absurd rfl hz
+    | _ => rfl
+
+theorem items_named (d : Date) (Y : Int) (o : Nat) (hd : DateOk d Y o) (t : Time) (ht : TValid t) (off : Int)
+    (hoff : -86400 < off ∧ off < 86400) (name : List Nat) (is : List Item) (hf : Item.fixed .rfc2822 ∉ is) :
+    formatItemsR (some d) (some t) (some (name, off)) is = toW (renderItemsNamed name is Y o t off) := by
+  induction is with
+  | nil => rfl
+  | cons it rest ih =>
+    rw [formatItemsR, item_named d Y o hd t ht off hoff name it (fun h => hf (by simp [h])),
+      ih (fun h => hf (List.mem_cons_of_mem _ h)), renderItemsNamed]
+    cases renderItemNamed name it Y o t off <;> cases renderItemsNamed name rest Y o t off <;> rfl
+
+/-- the wall clock of a `DateTime<Utc>` is its UTC reading -/
+theorem utc_wall (d : Date) (t : Time) (ht : TValid t) : Zoned.overflowing_naive_local ⟨⟨d, t⟩, 0⟩ = .ok ⟨d, t⟩ := by
+  obtain ⟨h1, h2, _, _⟩ := ht
+  unfold Zoned.overflowing_naive_local NaiveDT.overflowing_add_offset Time.overflowing_add_offset
+  dsimp only
+  have e1 : asI32 t.secs = t.secs := by unfold asI32; simp only []; split <;> omega
+  rw [e1, Int.add_zero, Proofs.ckI32_ok (by omega) (by omega)]
+  have e2 : t.secs % 86400 = t.secs := by omega
+  have e3 : t.secs / 86400 = 0 := by omega
+  have e4 : asU32 t.secs = t.secs := by unfold asU32; omega
+  simp only [Res.bind, e2, e3, e4]
+  rfl
+
 end Chrono.Proofs.StrftimeHeadroom
